@@ -1,6 +1,6 @@
 (** C14 — stopped() / running() tell the truth without anyone awaiting the actor.
     Statements only; proofs live in Inv/. *)
-From Hannibal Require Import Model.Sys Inv.C14 Chk.C14.
+From Hannibal Require Import Model.Sys Inv.C14 Inv.C08b Chk.C14.
 
 (** On every execution the model accepts, every liveness query on any handle or clone answers
     "stopped" exactly when the addressed actor's task has ended before the query — for every
@@ -14,3 +14,13 @@ Example C14_acceptor_rejects :
   chk_C14 [EvHandle 0 0 KAddr; EvTaskEnd 0 EndReturned; EvQuery 0 0 false false] = false
   /\ chk_C14 [EvHandle 0 0 KAddr; EvQuery 0 0 true false] = false.
 Proof. vm_compute. auto. Qed.
+
+(** Over whole executions, in the model itself: from any state in which an actor has terminated
+    (however it ended, whether or not anybody awaited it), on every continuation every
+    [stopped()] on any handle of it answers true and every [running()] false. *)
+Theorem C14_answer_after_termination_is_for_ever :
+  forall tr s1 s2 a x c h k isrunning b s3,
+  actors s1 a = Some x -> a_notif x <> NArmed -> run s1 tr = Acc s2 ->
+  handles s2 h = Some (a, k) -> step s2 (EvQuery c h isrunning b) = Acc s3 -> b = negb isrunning.
+Proof. exact query_after_termination. Qed.
+Print Assumptions C14_answer_after_termination_is_for_ever.
